@@ -235,7 +235,8 @@ def at_limit_ops(tree, kw):
 def run_depth(res, tier):
     cfgs = [(0, 0, 0, ((0, 0, 1, 0),), (), L), (1, 1, 0, ((0, 1, 1, 2),), (1,), L)]
     if tier != 'quick':
-        cfgs.append((0, 2, 0, ((0, 0, 1, 4), (0, 2, 2, 3)), (0,), L))
+        # (the registration that applies in namespace 2 uses SequenceEntry: its accessors can be called)
+        cfgs.append((0, 2, 0, ((0, 0, 1, 4), (0, 2, 2, 1)), (0,), L))
     cases = []
     for cfg in cfgs:
         for kind in KINDS:
